@@ -87,6 +87,12 @@ class StmtMixin(ContractMixin):
                 budget -= 1
                 if budget <= 0:
                     raise Unsupported(f"path explosion at {self.where(stmt, st)}")
+                if ns.alts is not None:
+                    for c in reversed(ns.alts):
+                        a = snap.clone()
+                        a.pc.append(c)
+                        work.append(a)
+                    continue
                 a = snap.clone()
                 a.pc.append(ns.cond)
                 b = snap
@@ -259,12 +265,7 @@ class StmtMixin(ContractMixin):
                 ok, name = pyconst(key)
                 if not ok:
                     h = self.resolve(st, obj.recv)
-                    for n in self.schema.fields(h.cls):
-                        if self.decide(st, key.t == z3.StringVal(n)):
-                            name = n
-                            break
-                    else:
-                        raise Unsupported("attribute name outside schema")
+                    name = self.pick_name(st, key, self.schema.fields(h.cls))
                 self.write(st, VRef(obj.recv.root, obj.recv.path + (("f", name),)), v)
                 return
             if not isinstance(obj, VRef):
@@ -273,7 +274,11 @@ class StmtMixin(ContractMixin):
             if isinstance(h, HPyDict) and not pyconst(key)[0]:
                 # concrete dict receiving a symbolic key: switch to the comprehension-shaped form
                 h = self.abstract_dict(st, h, key, v)
-                self.write_h(st, obj, h)
+                rec, st.rec = st.rec, []  # change of representation only: not an effect
+                try:
+                    self.write_h(st, obj, h)
+                finally:
+                    st.rec = rec
             if isinstance(h, (HSeq, HList, HListC)):
                 self.check_index(st, h, key, t)
             self.write(st, VRef(obj.root, obj.path + (("k", key),)), v)
@@ -633,26 +638,34 @@ class StmtMixin(ContractMixin):
         self.foreach_side_conditions(st, s, src, ends, rec_depth, effects, before_roots)
         # raise fork
         if raises:
-            cond = t_or(*[self.exists(src.binders, g) for _, g in raises])
-            if self.decide(st, cond):
-                # which exception: the classes must agree
-                classes = {v.cls for v, _ in raises}
-                if len(classes) > 1:
-                    raise Unsupported("several exception classes raised from one summarised loop")
+            cond = z3.simplify(t_or(*[self.exists(src.binders, g) for _, g in raises]))
+            classes = {v.cls for v, _ in raises}
+            if len(classes) > 1:
+                raise Unsupported("several exception classes raised from one summarised loop")
+            extra = []
+            if multi and not self.implied(st, cond) and not self.implied(st, z3.simplify(z3.Not(cond))):
+                rs = st.clone()
+                rs.pc.append(cond)
+                self.do_raise(rs, raises[0][0])
+                extra = [rs]
+                st.pc.append(z3.simplify(z3.Not(cond)))
+            elif self.decide(st, cond):
                 self.do_raise(st, raises[0][0])
                 return [st]
-            st.pc.append(z3.simplify(z3.Not(cond)))
+            else:
+                st.pc.append(z3.simplify(z3.Not(cond)))
         # apply the summary to the pre-state
-        self.apply_effects(st, [ef for ef, _ in effects], src.binders, s)
+        try:
+            self.apply_effects(st, [ef for ef, _ in effects], src.binders, s)
+        except NeedSplit as ns:
+            raise Unsupported(f"effects of the loop at {self.where(s, st)} cannot be merged into a summary (case split on {str(ns.cond)[:120]})")
         # variables assigned in the body are not available afterwards
         for n in (plain | tnames):
             if n in st.frame.env or st.frame.lookup(n) is not None:
                 st.frame.env[n] = VPoison("value after a summarised loop depends on iteration order")
             else:
                 st.frame.env[n] = VPoison("value after a summarised loop depends on iteration order")
-        if st.rec:
-            pass
-        return [st]
+        return extra + [st] if raises else [st]
 
     def foreach_side_conditions(self, st, s, src, ends, rec_depth, effects, before_roots):
         written = {}
@@ -665,6 +678,14 @@ class StmtMixin(ContractMixin):
             for (ref, idx, g) in fr.reads:
                 cref = ref
                 if cref.root not in written:
+                    continue
+                if idx is None:
+                    for ef in written[cref.root]:
+                        if ef.kind == "set" and self.same_path(ef.path, cref.path) and not ef.binders:
+                            ren = [(b, z3.Const(f"{b}!o{next(self.ctx.counter)}", b.sort())) for b in src.binders]
+                            goal = z3.Implies(t_and(g, src.guard, z3.substitute(src.guard, *ren), z3.substitute(ef.guard, *ren)),
+                                              t_and(*[b == r for b, r in ren]))
+                            self.ctx.obls.append(self.mk_obl(st, f"foreach-side#{k}/read-own-cell", self.forall([r for _, r in ren] + list(src.binders), goal), "foreach", self.where(s, st)))
                     continue
                 for ef in written[cref.root]:
                     if ef.kind != "set" and ef.kind != "add":
@@ -690,7 +711,22 @@ class StmtMixin(ContractMixin):
     def apply_effects(self, st, effects, loop_binders, s):
         """Apply summarised effects of a foreach loop to the state (possibly itself recording)."""
         k = self.loop_ordinal(st, s)
+        groups = []
+        rest_effects = []
         for ef in effects:
+            if ef.kind == "set" and ef.root is not None and not ef.binders and not any(
+                    kk == "k" and self.key_mentions(x, list(loop_binders)) for kk, x in ef.path):
+                for grp in groups:
+                    if grp[0].root == ef.root and self.same_path(grp[0].path, ef.path):
+                        grp.append(ef)
+                        break
+                else:
+                    groups.append([ef])
+            else:
+                rest_effects.append(ef)
+        for grp in groups:
+            self.apply_const_cell_sets(st, grp, list(loop_binders), k, s)
+        for ef in rest_effects:
             binders = list(ef.binders) + list(loop_binders)
             if ef.kind == "addlocal":
                 cur = st.frame.lookup(ef.name)
@@ -709,6 +745,43 @@ class StmtMixin(ContractMixin):
                 self.apply_cell_effect(st, ef, binders, k, s)
                 continue
             raise Unsupported(f"effect {ef.kind}")
+
+    def apply_const_cell_sets(self, st, grp, binders, k, s):
+        """Several guarded writes of one loop-constant cell: sound when at most one iteration writes."""
+        root = grp[0].root
+        if root not in st.heap:
+            return
+        g = t_or(*[e.guard for e in grp])
+        ren = [(b, z3.Const(f"{b}!u{next(self.ctx.counter)}", b.sort())) for b in binders]
+        uniq = z3.Implies(t_and(g, z3.substitute(g, *ren)), t_and(*[b == r for b, r in ren]))
+        self.ctx.obls.append(self.mk_obl(st, f"foreach-side#{k}/unique-writer", self.forall(list(binders) + [r for _, r in ren], uniq), "foreach", self.where(s, st)))
+        wit = [(b, self.fresh(st, "wit", b.sort())) for b in binders]
+        ex = self.exists(binders, g)
+        st.pc.append(z3.Implies(ex, z3.substitute(g, *wit)))
+        ref = VRef(root, grp[0].path)
+        old = self.resolve(st, ref) if self.path_exists(st, ref) else None
+        val = None
+        for e in reversed(grp):
+            v = self.force(st, e.value)
+            if isinstance(v, VRef):
+                raise Unsupported("loop stores a container reference into a loop-constant cell")
+            v = subst(v, wit)
+            val = v if val is None else self.v_ite(z3.substitute(e.guard, *wit), v, val)
+        if old is not None and not isinstance(old, H):
+            old = self.force(st, old) if isinstance(old, VLazy) else old
+            new = self.v_ite(ex, val, old)
+        elif old is None:
+            raise Unsupported("loop creates a new loop-constant cell")
+        else:
+            raise Unsupported("loop overwrites a container held in a loop-constant cell")
+        self.write(st, ref, new)
+
+    def path_exists(self, st, ref):
+        try:
+            self.resolve(st, ref)
+            return True
+        except Unsupported:
+            return False
 
     def set_existing(self, st, name, v):
         f = st.frame
